@@ -143,6 +143,16 @@ def eval_point(pt, R):
                 R.check(close(np.asarray(o.ar), np.asarray(a2), 1e-12, 1e-14) and close(np.asarray(o.reflection), np.asarray(k2), 1e-12, 1e-14), 'pyule_history',
                         dict(feats, order='same' if p2 == p else 'lower'), dict(pt, history=['compute', 'data=reversed', 'ar_order=%d' % p2, 'compute']),
                         np.asarray(o.ar), np.asarray(a2), 'pyule recomputed after a data change does not hold the Yule-Walker model of the new data')
+                if p2 == p and not A.is_single(x) and np.asarray(x).dtype.kind in 'fc':
+                    # the record edited in place through the object's own data array (no setter involved), then an explicit evaluation
+                    R.calls(2)
+                    o3 = spectrum.pyule(x, p)
+                    o3()
+                    o3.data[...] = x2
+                    o3()
+                    R.check(close(np.asarray(o3.ar), np.asarray(a2), 1e-12, 1e-14), 'pyule_history', dict(feats, order='in-place edit'),
+                            dict(pt, history=['compute', 'data[...] = reversed', 'compute']), np.asarray(o3.ar), np.asarray(a2),
+                            'an explicit evaluation after editing obj.data in place does not hold the Yule-Walker model of the edited record')
             except Exception as e:
                 R.viol('pyule_history', dict(feats, exc=type(e).__name__), pt, repr(e), None, 'pyule history raised')
         if p == 3 and not (x.dtype.kind in 'iu'):
